@@ -155,11 +155,332 @@ theorem C09_fixed :
     decodePacket packetPINGREQ = some (.pingreq, []) ∧ decodePacket packetDISCONNECT = some (.disconnect, []) := by
   decide
 
+/-! ## SUBSCRIBE, UNSUBSCRIBE and CONNECT decode to the request -/
+
+theorem totalLen_cons (f : Bytes) (fs : List Bytes) : totalLen (f :: fs) = f.length + totalLen fs := by
+  simp [totalLen]
+
+/-- the payload of SUBSCRIBE parses back to the filters with the requested maximum level -/
+theorem parseSubFilters_compose (lvl : Nat) (hl : lvl ≤ 2) (fs : List Bytes) (hd : firstDeny fs = none) :
+    ∀ fuel, fuel > (fs.flatMap (fun s => strField s ++ [UInt8.ofNat lvl])).length →
+      parseSubFilters fuel (fs.flatMap (fun s => strField s ++ [UInt8.ofNat lvl])) = some (fs.map (·, lvl)) := by
+  induction fs with
+  | nil => intro fuel hf; cases fuel <;> simp [parseSubFilters] at *
+  | cons f rest ih =>
+    intro fuel hf
+    have hf1 : topicCheck f = none := by
+      simp only [firstDeny] at hd
+      split at hd <;> simp_all
+    have hrest : firstDeny rest = none := by
+      simp only [firstDeny] at hd
+      split at hd <;> simp_all
+    obtain ⟨hne, hlen, hv, hn⟩ := topicCheck_none hf1
+    cases fuel with
+    | zero => simp at hf
+    | succ fuel =>
+      simp only [List.flatMap_cons, List.append_assoc, List.cons_append, List.nil_append]
+      have hlt : (UInt8.ofNat lvl).toNat = lvl := by
+        have : lvl < 256 := by omega
+        simp [UInt8.toNat_ofNat, Nat.mod_eq_of_lt this]
+      have hfe : f.isEmpty = false := by cases f <;> simp_all
+      rw [parseSubFilters]
+      · simp only [takeUtf8_strField f _ hlen hv hn, hfe, hlt]
+        have : ¬ (lvl > 2) := by omega
+        simp only [this, Bool.false_or, decide_false, Bool.false_eq_true, if_false]
+        rw [ih hrest fuel (by
+          simp only [List.flatMap_cons, List.length_append, strField_length, List.length_cons, List.length_nil] at hf
+          omega)]
+        simp
+      · intro h
+        simp [strField, be16] at h
+
+
+
+theorem flatMap_sub_length (lvl : Nat) (fs : List Bytes) :
+    (fs.flatMap (fun s => strField s ++ [UInt8.ofNat lvl])).length = fs.length * 3 + totalLen fs := by
+  induction fs with
+  | nil => simp [totalLen]
+  | cons f r ih =>
+    simp only [List.flatMap_cons, List.length_append, strField_length, List.length_cons, List.length_nil, ih, totalLen_cons]
+    omega
+
+/-- Every SUBSCRIBE the client composes (any non-empty list of filters that pass the check, within the packet
+limit, any of the three maximum levels) decodes to exactly the requested filters, in order, each with that level. -/
+theorem C09_subscribe_roundtrip (pid : Nat) (h0 : 0 < pid) (h1 : pid < 65536) (fs : List Bytes) (lvl : Nat) (hl : lvl ≤ 2)
+    (hd : subscribeDeny fs = none) :
+    decodePacket (subscribePacket pid fs lvl) = some (.subscribe pid (fs.map (·, lvl)), []) := by
+  unfold subscribeDeny at hd
+  have hne : fs.isEmpty = false := by
+    cases h : fs.isEmpty <;> simp_all
+  simp only [hne, Bool.false_eq_true, if_false] at hd
+  have hfd : firstDeny fs = none := by
+    cases h : firstDeny fs <;> simp_all
+  simp only [hfd] at hd
+  have hsz : 2 + fs.length * 3 + totalLen fs ≤ Facts.packetMax := by
+    by_cases h : 2 + fs.length * 3 + totalLen fs > Facts.packetMax
+    · simp [h] at hd
+    · omega
+  let pay := fs.flatMap (fun s => strField s ++ [UInt8.ofNat lvl])
+  let body := be16 pid ++ pay
+  have hbl : body.length = 2 + fs.length * 3 + totalLen fs := by
+    simp only [body, pay, List.length_append, be16_length, flatMap_sub_length]; omega
+  have hframe := splitFrame_compose (UInt8.ofNat (Facts.typeSUBSCRIBE * 16 + Facts.atLeastOnceLevel * 2)) body [] (by omega)
+  rw [hbl] at hframe
+  have hshape : subscribePacket pid fs lvl
+      = [UInt8.ofNat (Facts.typeSUBSCRIBE * 16 + Facts.atLeastOnceLevel * 2)] ++ encodeVarint (2 + fs.length * 3 + totalLen fs) ++ body ++ [] := by
+    simp [subscribePacket, body, pay]
+  rw [decodePacket, hshape, hframe]
+  have hp := parseSubFilters_compose lvl hl fs hfd (pay.length + 1) (Nat.lt_succ_self _)
+  have hcons : ∃ x xs, fs.map (·, lvl) = x :: xs := by
+    cases fs with
+    | nil => simp at hne
+    | cons a t => exact ⟨_, _, rfl⟩
+  obtain ⟨x, xs, hx⟩ := hcons
+  simp only [Option.map]
+  show (parseBody _ body).map _ = _
+  have hp' : parseSubFilters (pay.length + 1) pay = some (x :: xs) := by rw [← hx]; exact hp
+  simp [parseBody, body, takeId_be16 pid pay h0 h1, hp', hx, Facts.typeSUBSCRIBE, Facts.atLeastOnceLevel]
+
+
+
+theorem parseUnsubFilters_compose (fs : List Bytes) (hd : firstDeny fs = none) :
+    ∀ fuel, fuel > (fs.flatMap strField).length → parseUnsubFilters fuel (fs.flatMap strField) = some fs := by
+  induction fs with
+  | nil => intro fuel hf; cases fuel <;> simp [parseUnsubFilters] at *
+  | cons f rest ih =>
+    intro fuel hf
+    have hf1 : topicCheck f = none := by
+      simp only [firstDeny] at hd
+      split at hd <;> simp_all
+    have hrest : firstDeny rest = none := by
+      simp only [firstDeny] at hd
+      split at hd <;> simp_all
+    obtain ⟨hne, hlen, hv, hn⟩ := topicCheck_none hf1
+    cases fuel with
+    | zero => simp at hf
+    | succ fuel =>
+      simp only [List.flatMap_cons]
+      have hfe : f.isEmpty = false := by cases f <;> simp_all
+      rw [parseUnsubFilters]
+      · simp only [takeUtf8_strField f _ hlen hv hn, hfe]
+        rw [ih hrest fuel (by
+          simp only [List.flatMap_cons, List.length_append, strField_length] at hf
+          omega)]
+        simp
+      · intro h
+        simp [strField, be16] at h
+
+theorem flatMap_unsub_length (fs : List Bytes) : (fs.flatMap strField).length = fs.length * 2 + totalLen fs := by
+  induction fs with
+  | nil => simp [totalLen]
+  | cons f r ih =>
+    simp only [List.flatMap_cons, List.length_append, strField_length, List.length_cons, ih, totalLen_cons]
+    omega
+
+/-- Every UNSUBSCRIBE the client composes decodes to exactly the requested filters, in order. -/
+theorem C09_unsubscribe_roundtrip (pid : Nat) (h0 : 0 < pid) (h1 : pid < 65536) (fs : List Bytes)
+    (hd : unsubscribeDeny fs = none) :
+    decodePacket (unsubscribePacket pid fs) = some (.unsubscribe pid fs, []) := by
+  unfold unsubscribeDeny at hd
+  have hne : fs.isEmpty = false := by
+    cases h : fs.isEmpty <;> simp_all
+  simp only [hne, Bool.false_eq_true, if_false] at hd
+  have hfd : firstDeny fs = none := by
+    cases h : firstDeny fs <;> simp_all
+  simp only [hfd] at hd
+  have hsz : 2 + fs.length * 2 + totalLen fs ≤ Facts.packetMax := by
+    by_cases h : 2 + fs.length * 2 + totalLen fs > Facts.packetMax
+    · simp [h] at hd
+    · omega
+  let pay := fs.flatMap strField
+  let body := be16 pid ++ pay
+  have hbl : body.length = 2 + fs.length * 2 + totalLen fs := by
+    simp only [body, pay, List.length_append, be16_length, flatMap_unsub_length]; omega
+  have hframe := splitFrame_compose (UInt8.ofNat (Facts.typeUNSUBSCRIBE * 16 + Facts.atLeastOnceLevel * 2)) body [] (by omega)
+  rw [hbl] at hframe
+  have hshape : unsubscribePacket pid fs
+      = [UInt8.ofNat (Facts.typeUNSUBSCRIBE * 16 + Facts.atLeastOnceLevel * 2)] ++ encodeVarint (2 + fs.length * 2 + totalLen fs) ++ body ++ [] := by
+    simp [unsubscribePacket, body, pay]
+  rw [decodePacket, hshape, hframe]
+  have hp := parseUnsubFilters_compose fs hfd (pay.length + 1) (Nat.lt_succ_self _)
+  obtain ⟨x, xs, hx⟩ : ∃ x xs, fs = x :: xs := by
+    cases fs with
+    | nil => simp at hne
+    | cons a t => exact ⟨_, _, rfl⟩
+  have hp' : parseUnsubFilters (pay.length + 1) pay = some (x :: xs) := by rw [← hx]; exact hp
+  simp [parseBody, body, takeId_be16 pid pay h0 h1, hp', hx, Facts.typeUNSUBSCRIBE, Facts.atLeastOnceLevel]
+
+def flagsOf (u p w r e a cl : Bool) : Nat :=
+  (if u then 128 else 0) + (if p then 64 else 0)
+    + (if w then (if r then 32 else 0) + (if e then 16 else if a then 8 else 0) + 4 else 0)
+    + (if cl then 2 else 0)
+
+theorem connectFlags_eq (c : Cfg) :
+    c.connectFlags = flagsOf c.hasUser c.password.isSome c.will.message.isSome c.will.retain c.will.exactlyOnce c.will.atLeastOnce c.cleanSession := by
+  unfold Cfg.connectFlags flagsOf
+  cases hm : c.will.message <;> simp [Facts.exactlyOnceLevel, Facts.atLeastOnceLevel]
+
+theorem flagsOf_bits (u p w r e a cl : Bool) :
+    let fl := UInt8.ofNat (flagsOf u p w r e a cl)
+    bit fl 0 = false ∧ bit fl 1 = cl ∧ bit fl 2 = w ∧
+    fl.toNat / 8 % 4 = (if w then (if e then 2 else if a then 1 else 0) else 0) ∧
+    bit fl 5 = (w && r) ∧ bit fl 6 = p ∧ bit fl 7 = u := by
+  cases u <;> cases p <;> cases w <;> cases r <;> cases e <;> cases a <;> cases cl <;> decide
+
+theorem stringCheck_none {s : Bytes} (h : stringCheck s = none) :
+    s.length ≤ 65535 ∧ utf8Valid s = true ∧ s.contains 0 = false := by
+  have key := C09_stringCheck_iff s
+  rw [h] at key
+  simp only [Option.isSome_none, Bool.false_eq_true, false_iff, not_or] at key
+  obtain ⟨a, b, c⟩ := key
+  exact ⟨by omega, by simpa using b, by simpa using c⟩
+
+
+
+def expectedWill (c : Cfg) : Option WillP :=
+  c.will.message.map fun m =>
+    ⟨c.will.topic, m, if c.will.exactlyOnce then 2 else if c.will.atLeastOnce then 1 else 0, c.will.retain⟩
+
+theorem connreq_size_le (c : Cfg) (cid : Bytes) (hc : cid.length ≤ 65535) (hu : c.userName.length ≤ 65535)
+    (hp : (c.password.getD []).length ≤ 65535) (hw : (c.will.message.getD []).length ≤ 65535) (ht : c.will.topic.length ≤ 65535) :
+    c.connectSize cid ≤ Facts.packetMax := by
+  unfold Cfg.connectSize
+  have : Facts.packetMax = 268435455 := rfl
+  cases hpw : c.password <;> cases hm : c.will.message <;> simp_all <;> split <;> omega
+
+/-- Every CONNECT the client composes for a valid Config and client identifier decodes to exactly that Config:
+clean-session flag, keep-alive, identifier, will (topic, message, level, retain), user name and password. -/
+theorem C09_connect_roundtrip (c : Cfg) (cid : Bytes) (hv : c.valid = none) (hc : stringCheck cid = none)
+    (hk : c.keepAlive < 65536) :
+    decodePacket (c.connreq cid) =
+      some (.connect c.cleanSession c.keepAlive cid (expectedWill c) (if c.hasUser then some c.userName else none) c.password, []) := by
+  obtain ⟨hcl, hcv, hcn⟩ := stringCheck_none hc
+  have hsm : Facts.stringMax = 65535 := rfl
+  -- what `valid` guarantees
+  unfold Cfg.valid at hv
+  have hus : stringCheck c.userName = none := by
+    cases h : stringCheck c.userName <;> simp_all
+  simp only [hus] at hv
+  have hpl : (c.password.getD []).length ≤ 65535 := by
+    by_cases h : (c.password.getD []).length > Facts.stringMax
+    · simp [h] at hv
+    · omega
+  have hpl' : ¬ ((c.password.getD []).length > Facts.stringMax) := by omega
+  simp only [hpl', if_false] at hv
+  have hml : (c.will.message.getD []).length ≤ 65535 := by
+    by_cases h : (c.will.message.getD []).length > Facts.stringMax
+    · simp [h] at hv
+    · omega
+  have hml' : ¬ ((c.will.message.getD []).length > Facts.stringMax) := by omega
+  simp only [hml', if_false] at hv
+  obtain ⟨hul, huv, hun⟩ := stringCheck_none hus
+  have hbits := flagsOf_bits c.hasUser c.password.isSome c.will.message.isSome c.will.retain c.will.exactlyOnce
+    c.will.atLeastOnce c.cleanSession
+  rw [← connectFlags_eq] at hbits
+  obtain ⟨b0, b1, b2, bq, b5, b6, b7⟩ := hbits
+  have hka := beU16_be16 c.keepAlive hk
+  have bq' : c.connectFlags % 256 / 8 % 4 =
+      (if c.will.message.isSome = true then (if c.will.exactlyOnce = true then 2 else if c.will.atLeastOnce = true then 1 else 0) else 0) := by
+    simpa using bq
+  have hcid0 := takeUtf8_strField cid [] hcl hcv hcn
+  have hun0 := takeUtf8_strField c.userName [] hul huv hun
+  simp only [List.append_nil] at hcid0 hun0
+  -- the will topic bound holds in both branches of `valid`
+  have htl : c.will.topic.length ≤ 65535 := by
+    cases hm : c.will.message with
+    | none => simp only [hm, Option.isSome_none, Bool.false_eq_true, if_false] at hv; exact (stringCheck_none hv).1
+    | some m => simp only [hm, Option.isSome_some, if_true] at hv; exact (topicCheck_none hv).2.1
+  have hsz := connreq_size_le c cid hcl hul hpl hml htl
+  -- the frame
+  let tail : Bytes := strField cid
+    ++ (match c.will.message with | some m => strField c.will.topic ++ strField m | none => [])
+    ++ (if c.hasUser then strField c.userName else [])
+    ++ (match c.password with | some p => strField p | none => [])
+  let body : Bytes := [0, 4, 0x4D, 0x51, 0x54, 0x54, 4, UInt8.ofNat c.connectFlags] ++ be16 c.keepAlive ++ tail
+  have hbl : body.length = c.connectSize cid := by
+    simp only [body, tail, Cfg.connectSize, List.length_append, List.length_cons, List.length_nil, be16_length, strField_length]
+    cases c.will.message <;> cases c.password <;> cases c.hasUser <;> simp [strField_length] <;> omega
+  have hframe := splitFrame_compose (UInt8.ofNat (Facts.typeCONNECT * 16)) body [] (by omega)
+  rw [hbl] at hframe
+  have hshape : c.connreq cid = [UInt8.ofNat (Facts.typeCONNECT * 16)] ++ encodeVarint (c.connectSize cid) ++ body ++ [] := by
+    simp [Cfg.connreq, body, tail]
+    rfl
+  rw [decodePacket, hshape, hframe]
+  have hpb : parseBody (UInt8.ofNat (Facts.typeCONNECT * 16)) body = parseConnect body := by
+    simp [parseBody, Facts.typeCONNECT]
+  simp only [hpb, Option.map]
+  -- password present implies the user flag
+  have hpu : c.password.isSome = true → c.hasUser = true := by
+    intro h; simp [Cfg.hasUser, h]
+  cases hm : c.will.message with
+  | none =>
+    simp only [hm, Option.isSome_none, Bool.false_eq_true, if_false, Bool.false_and] at hv b2 bq' b5
+    cases hp : c.password with
+    | none =>
+      simp only [hp, Option.isSome_none] at b6
+      cases hu : c.hasUser with
+      | false =>
+        simp only [hu] at b7
+        simp [parseConnect, body, tail, be16, hm, hp, hu, b0, b1, b2, bq', b5, b6, b7, hka, expectedWill, hcid0, hun0,
+          takeUtf8_strField cid _ hcl hcv hcn]
+      | true =>
+        simp only [hu] at b7
+        simp [parseConnect, body, tail, be16, hm, hp, hu, b0, b1, b2, bq', b5, b6, b7, hka, expectedWill, hcid0, hun0,
+          takeUtf8_strField cid _ hcl hcv hcn, takeUtf8_strField c.userName _ hul huv hun]
+    | some p =>
+      have hu : c.hasUser = true := hpu (by simp [hp])
+      simp only [hp, Option.isSome_some] at b6
+      simp only [hu] at b7
+      have hpl2 : p.length ≤ 65535 := by simpa [hp] using hpl
+      have hp0 := takeStr_strField p [] hpl2
+      simp only [List.append_nil] at hp0
+      simp [parseConnect, body, tail, be16, hm, hp, hu, b0, b1, b2, bq', b5, b6, b7, hka, expectedWill, hcid0, hun0, hp0,
+        takeUtf8_strField cid _ hcl hcv hcn, takeUtf8_strField c.userName _ hul huv hun, takeStr_strField p _ hpl2]
+  | some m =>
+    simp only [hm, Option.isSome_some, if_true, Bool.true_and] at hv b2 bq' b5
+    obtain ⟨htne, _, htv, htn⟩ := topicCheck_none hv
+    have hte : c.will.topic.isEmpty = false := by cases h : c.will.topic <;> simp_all
+    have hml2 : m.length ≤ 65535 := by simpa [hm] using hml
+    have hq3 : ¬ ((if c.will.exactlyOnce = true then 2 else if c.will.atLeastOnce = true then 1 else 0) = 3) := by
+      split <;> (try split) <;> omega
+    have hm0 := takeStr_strField m [] hml2
+    simp only [List.append_nil] at hm0
+    cases hp : c.password with
+    | none =>
+      simp only [hp, Option.isSome_none] at b6
+      cases hu : c.hasUser with
+      | false =>
+        simp only [hu] at b7
+        simp [parseConnect, body, tail, be16, hm, hp, hu, b0, b1, b2, bq', b5, b6, b7, hka, expectedWill, hcid0, hun0, hm0, hq3, hte,
+          takeUtf8_strField cid _ hcl hcv hcn, takeUtf8_strField c.will.topic _ htl htv htn, takeStr_strField m _ hml2]
+      | true =>
+        simp only [hu] at b7
+        simp [parseConnect, body, tail, be16, hm, hp, hu, b0, b1, b2, bq', b5, b6, b7, hka, expectedWill, hcid0, hun0, hm0, hq3, hte,
+          takeUtf8_strField cid _ hcl hcv hcn, takeUtf8_strField c.will.topic _ htl htv htn, takeStr_strField m _ hml2,
+          takeUtf8_strField c.userName _ hul huv hun]
+    | some p =>
+      have hu : c.hasUser = true := hpu (by simp [hp])
+      simp only [hp, Option.isSome_some] at b6
+      simp only [hu] at b7
+      have hpl2 : p.length ≤ 65535 := by simpa [hp] using hpl
+      have hp0 := takeStr_strField p [] hpl2
+      simp only [List.append_nil] at hp0
+      simp [parseConnect, body, tail, be16, hm, hp, hu, b0, b1, b2, bq', b5, b6, b7, hka, expectedWill, hcid0, hun0, hm0, hp0, hq3, hte,
+        takeUtf8_strField cid _ hcl hcv hcn, takeUtf8_strField c.will.topic _ htl htv htn, takeStr_strField m _ hml2,
+        takeUtf8_strField c.userName _ hul huv hun, takeStr_strField p _ hpl2]
+
 /-! ## Non-vacuity -/
 
 example : topicCheck [0x61, 0x2f, 0x62] = none := by decide
 example : (C09_topicCheck_iff [0x61, 0x00]).mp (by decide) = (C09_topicCheck_iff [0x61, 0x00]).mp (by decide) := rfl
 example : decodePacket [0x32, 0x07, 0x00, 0x01, 0x78, 0x80, 0x00, 0x68, 0x69]
     = some (.publish false 1 false [0x78] (some 32768) [0x68, 0x69], []) := by decide
+
+example : subscribeDeny [[0x61, 0x2f, 0x23], [0x62]] = none := by decide
+example : decodePacket (subscribePacket 0x6000 [[0x61, 0x2f, 0x23], [0x62]] 1)
+    = some (.subscribe 0x6000 [([0x61, 0x2f, 0x23], 1), ([0x62], 1)], []) :=
+  C09_subscribe_roundtrip 0x6000 (by decide) (by decide) _ 1 (by decide) (by decide)
+example : ({ userName := [0x75], password := some [1, 2], will := { topic := [0x77], message := some [0x6d], exactlyOnce := true },
+             keepAlive := 60, cleanSession := true } : Cfg).valid = none := by decide
 
 end Model
